@@ -7,8 +7,15 @@ import (
 
 // extractAll lists every fact; each is documented where it is produced.
 func extractAll() {
-	factsC14()
+	for _, f := range registry {
+		f()
+	}
 }
+
+// registry: each facts_cXX.go appends its extractor in init()
+var registry []func()
+
+func init() { registry = append(registry, factsC14) }
 
 // constIntValue finds `const name = <int literal or -literal>` at file level.
 func constIntValue(f *ast.File, name string) (string, bool) {
